@@ -18,7 +18,7 @@ NAMING = {1: "-fnames", 2: "-fptrs", 3: None}
 FLAGS = {"string": "-string", "true_names": "-true-names", "unique_names": "-unique-names", "nodb": "-nodb",
          "do_module": "-do-module", "promiscuous": "-promiscuous", "nomangle": "-nomangle", "assert": "-assert"}
 FEATURES = ["f_keywords", "f_operators", "f_strdefault", "f_macros", "f_nested", "f_enumdefault", "f_stdstring",
-            "f_conversions", "f_hierarchy"]
+            "f_conversions", "f_hierarchy", "f_datamembers"]
 PYINC = sysconfig.get_paths()["include"]
 PYLIBDIR = sysconfig.get_config_var("LIBDIR")
 PYVER = "python%d.%d" % sys.version_info[:2]
@@ -247,6 +247,34 @@ def render_library(tag, feats, other=None, collisions=None, overloads=True, xinh
     L.append("public:\n  int hidden() { return 1; }\n  int _v;\n};")
     if "f_strdefault" in feats:
         L.append(render_defaults(t, "f_stdstring" in feats))
+    if "f_datamembers" in feats:
+        L.append("""typedef const int DCInt%(t)s;
+typedef int DPInt%(t)s;
+struct DataM%(t)s {
+PUBLISHED:
+#ifdef CPPPARSER
+  DataM%(t)s();      // (interrogate does not parse a nested brace initialiser in a mem-initializer list: C06's business)
+#else
+  DataM%(t)s() : ci(4), ri(plain), cp("x"), tab{1, 2, 3}, name{'a', 0}, ct{5, 6}, cd(7), cgrid{{1, 2}, {3, 4}}, en(e_b), bits(2) { }
+#endif
+  enum E { e_a, e_b = 2 };
+  int plain;
+  const int ci;
+  int &ri;
+  const char *cp;
+  int *ip;
+  const int tab[3];
+  const char name[8];
+  DCInt%(t)s ct[2];
+  DCInt%(t)s cd;
+  DPInt%(t)s pd;
+  int viatypedef(DPInt%(t)s x, DCInt%(t)s y) const { return x + y; }
+  const int cgrid[2][2];
+  static const int sc = 3;
+  mutable int mu;
+  E en;
+  unsigned bits : 3;
+};""" % dict(t=t))
     if "f_hierarchy" in feats:
         L.append("""class HNode%(t)s {
 PUBLISHED:
@@ -663,6 +691,11 @@ KNOWN_CONSTRUCTS = [
          control="class Prot { public: typedef int Handle; Prot() {} int take(Handle h) { return h; } };\n"),
     dict(id="C03-library-name-not-identifier", tag="lname", backends=(3,), opts={"promiscuous": 2, "libname": "lib-foo.bar"},
          body=SIMPLE, control=SIMPLE, control_opts={"promiscuous": 2, "libname": "lib_foo_bar"}),
+    # array data members whose elements can be assigned to: the -python back-end reads the new value as a PyObject and casts
+    # it to the array type (`(int [2])param1`); -c and -python-native are the control (same header, they compile)
+    dict(id="C03-python-array-member-setter", tag="arrset", backends=(2,), opts={"promiscuous": 2},
+         body="struct ArrM { ArrM() { a[0] = a[1] = 0; g[0][0] = 0; } int a[2]; int g[2][2]; };\n",
+         control="struct ArrM { ArrM() : p(nullptr) { } const int *p; const int a[2] = {1, 2}; };\n"),
     dict(id="C03-default-names-private-member", tag="late", backends=(3,), opts={"promiscuous": 2},
          body="class Late { public: Late() {} int f(int v = kSecret) { return v; } private: static const int kSecret = 5; };\n",
          control="class Late { public: static const int kOpen = 5; Late() {} int f(int v = kOpen) { return v; } };\n"),
@@ -803,6 +836,11 @@ def run_check(ctx):
                                     raw=kc["body"], construct=kc["id"]), **kc["opts"]))
             kcases.append(dict(dict(id="k%d%sctl" % (be, kc["tag"]), backend=be, naming=1, tags=["K"], feats=set(),
                                     raw=kc["control"], control_of=kc["id"]), **kc.get("control_opts", kc["opts"])))
+    # the same assignable array members under -c and -python-native: plain cases that must pass
+    for be in (1, 3):
+        kcases.append(dict(id="k%darrok" % be, backend=be, naming=1, tags=["K"], feats=set(), promiscuous=2,
+                           raw="struct ArrM { ArrM() { a[0] = a[1] = 0; g[0][0] = 0; } int a[2]; int g[2][2]; };\n",
+                           control_of="C03-python-array-member-setter"))
     # an integer literal above LLONG_MAX as default argument (executed); control: LLONG_MAX itself
     kcases.append(dict(id="k3ullmax", backend=3, naming=1, tags=["K"], feats=set(), string=2, promiscuous=2,
                        raw=render_defaults("K", False, extra=[("u1", "unsigned long long v = 18446744073709551615ULL", "v")]),
